@@ -228,7 +228,7 @@ static sidslot_t g_sids[MAXSID];
 /******************************************************************************/
 /* endpoints and the wire */
 
-#define MAXQ 256
+#define MAXQ 2048
 #define MAXHIST 1024
 typedef struct
 {
@@ -1365,6 +1365,14 @@ static void do_deliver(ep_t *src, int count, int chunk)
     emit_begin(&g_out, "deliver", dst);
     sb_printf(&g_out, ",\"from\":\"%s\",\"nrec\":%d,\"bytes\":%d,\"rtype\":%d,\"rid\":%d,\"origin\":%d,\"itype\":%d,\"imsg\":\"%s\",\"wsec\":%d,\"kmatch\":%d,\"seqm\":%d,\"auth\":%d,\"alvl\":%d,\"adesc\":%d,\"rs0\":%d",
         src->name, count, total, total > 0 ? buf[0] : -1, ids0, origin, itype, imsg >= 0 ? hs_name(imsg) : "-", wsec, kmatch, seqm, auth, alvl, adesc, rs0);
+    if (dst->dtls && total >= 13)
+    {
+        /* DTLS record header of the (first) record: epoch, sequence number; message_seq of an unprotected handshake message */
+        long dsq = ((long) buf[7] << 24) | ((long) buf[8] << 16) | ((long) buf[9] << 8) | buf[10];
+        int dms = (buf[0] == 22 && buf[3] == 0 && buf[4] == 0 && total >= 13 + 6) ? ((buf[13 + 4] << 8) | buf[13 + 5]) : -1;
+        sb_printf(&g_out, ",\"dep\":%d,\"dsq\":%ld,\"dms\":%d", (buf[3] << 8) | buf[4], dsq & 0x3fffffff, dms);
+    }
+    else sb_printf(&g_out, ",\"dep\":-1,\"dsq\":-1,\"dms\":-1");
     emit_state(&g_out, dst);
     emit_end(&g_out);
     free(buf);
@@ -2023,6 +2031,68 @@ static void run_line(char *line)
         sb_printf(&g_out, ",\"msg\":%d,\"mode\":%d", e->tam_msg, e->tam_mode);
         emit_end(&g_out);
     }
+    else if (!strcmp(tok[0], "heal"))
+    {
+        /* heal <a> <b> [rounds=6]: the network stops losing datagrams; as an application would, each endpoint whose
+           handshake is not complete fires its retransmission timer when nothing arrives */
+        ep_t *a = ep_get(tok[1]), *b = ep_get(tok[2]);
+        int rounds = opt_int(tok, ntok, "rounds", 6), k;
+        char cmd[96];
+        for (k = 0; k < rounds; k++)
+        {
+            int adone = a->ssl && (a->ssl->bFlags & BFLAG_HS_COMPLETE) && a->ssl->hsState == SSL_HS_DONE;
+            int bdone = b->ssl && (b->ssl->bFlags & BFLAG_HS_COMPLETE) && b->ssl->hsState == SSL_HS_DONE;
+            snprintf(cmd, sizeof(cmd), "pump %s %s max=400", a->name, b->name); run_line(cmd);
+            adone = a->ssl && (a->ssl->bFlags & BFLAG_HS_COMPLETE) && a->ssl->hsState == SSL_HS_DONE;
+            bdone = b->ssl && (b->ssl->bFlags & BFLAG_HS_COMPLETE) && b->ssl->hsState == SSL_HS_DONE;
+            if ((adone && bdone) || ep_dead(a) || ep_dead(b)) break;
+            if (!adone && a->histn > 0) { snprintf(cmd, sizeof(cmd), "timeout %s", a->name); run_line(cmd); }
+            if (!bdone && b->histn > 0) { snprintf(cmd, sizeof(cmd), "timeout %s", b->name); run_line(cmd); }
+        }
+    }
+    else if (!strcmp(tok[0], "pmtu"))
+    {
+        int32 rc = matrixDtlsSetPmtu(atoi(tok[1]));
+        emit_begin(&g_out, "pmtu", NULL); sb_printf(&g_out, ",\"pmtu\":%d,\"rcn\":%d", atoi(tok[1]), rc); emit_end(&g_out);
+    }
+    else if (!strcmp(tok[0], "sched"))
+    {
+        /* sched <a> <b> <decisions> : a datagram schedule.  Endpoints take turns; the decision letter is applied
+           to the head of the sender's queue: d deliver, x drop, u duplicate (the copy stays queued), s swap with
+           the next one then deliver, l delay (move to the end of the queue).  When nothing is in flight and
+           letters remain, both retransmission timers fire (at most 8 times). */
+        ep_t *a = ep_get(tok[1]), *b = ep_get(tok[2]);
+        const char *str = ntok > 3 ? tok[3] : "";
+        int i = 0, n = (int) strlen(str), iter, timeouts = 0, turn = 0;
+        char cmd[96];
+        for (iter = 0; iter < 600; iter++)
+        {
+            ep_t *src;
+            char dec;
+            snprintf(cmd, sizeof(cmd), "flush %s", a->name); run_line(cmd);
+            snprintf(cmd, sizeof(cmd), "flush %s", b->name); run_line(cmd);
+            src = turn ? b : a;
+            if (src->qn == 0) src = turn ? a : b;
+            if (src->qn == 0)
+            {
+                if (i >= n || timeouts >= 8 || ep_dead(a) || ep_dead(b)) break;
+                timeouts++;
+                /* a retransmission timer runs only once a flight has been sent (RFC 6347 4.2.4) */
+                if (a->histn > 0) { snprintf(cmd, sizeof(cmd), "timeout %s", a->name); run_line(cmd); }
+                if (b->histn > 0) { snprintf(cmd, sizeof(cmd), "timeout %s", b->name); run_line(cmd); }
+                continue;
+            }
+            if (i >= n) break;
+            dec = str[i++];
+            if (dec == 'x') snprintf(cmd, sizeof(cmd), "drop %s 0", src->name);
+            else if (dec == 'u') { snprintf(cmd, sizeof(cmd), "dup %s 0", src->name); run_line(cmd); snprintf(cmd, sizeof(cmd), "deliver %s 1", src->name); }
+            else if (dec == 's' && src->qn >= 2) { snprintf(cmd, sizeof(cmd), "swap %s 0 1", src->name); run_line(cmd); snprintf(cmd, sizeof(cmd), "deliver %s 1", src->name); }
+            else if (dec == 'l' && src->qn >= 2) { rec_t r = q_remove(src, 0); q_insert(src, src->qn, r); emit_adv("delay", src, "\"itype\":%d", r.itype); cmd[0] = 0; }
+            else snprintf(cmd, sizeof(cmd), "deliver %s 1", src->name);
+            if (cmd[0]) run_line(cmd);
+            turn = !turn;
+        }
+    }
     else if (!strcmp(tok[0], "mark")) { emit_begin(&g_out, "mark", NULL); sb_printf(&g_out, ",\"tag\":\"%s\"", ntok > 1 ? tok[1] : ""); emit_end(&g_out); }
     else if (!strcmp(tok[0], "reset"))
     {
@@ -2032,6 +2102,7 @@ static void run_line(char *line)
         for (i = 0; i < MAXKEYS; i++) { if (g_keys[i].used) { matrixSslDeleteKeys(g_keys[i].keys); g_keys[i].used = 0; } }
         matrixSslClose();
         memset(g_slotn, 0, sizeof(g_slotn));
+        matrixDtlsSetPmtu(-1);
         g_now = 1790000000L; g_usec = 0; g_rng = 0x9e3779b97f4a7c15ULL;
         if (matrixSslOpen() < 0) die("matrixSslOpen failed");
         emit_begin(&g_out, "Reset", NULL);
